@@ -58,11 +58,24 @@ def model(lines, types):
 def search(seed, rounds):
     rnd = random.Random(seed)
     types = ["folder", "file", "semlock"]
-    names = ["a", "b", "c:d", "e!", ""]
+    # (names that are string prefixes / path prefixes of one another: a folder, a file inside it, a sibling whose name merely starts alike)
+    names = ["a", "a/f", "a.pkl", "ab/g", "c:d", "e!", ""]
     cases = 0
-    for r in range(rounds):
+    # directed histories: a folder and a file whose names are related go through their life cycles in both orders - deleting one must
+    # neither forget nor delete the other (seeded change C20-prune-files-of-deleted-folder)
+    directed = []
+    for f in names:
+        for g in names:
+            directed.append([("REGISTER", f, "folder"), ("REGISTER", g, "file"), ("MAYBE_UNLINK", f, "folder"), ("MAYBE_UNLINK", g, "file")])
+            directed.append([("REGISTER", g, "file"), ("REGISTER", g, "file"), ("REGISTER", f, "folder"), ("MAYBE_UNLINK", f, "folder"), ("MAYBE_UNLINK", g, "file")])
+    # all of them in ONE tracker process: the names of history k are prefixed with "h<k>-", which keeps the prefix relations inside a history
+    # and makes different histories unrelated
+    directed_lines = [("%s:h%d-%s:%s\n" % (cmd, k, name, t)).encode() for k, h in enumerate(directed) for (cmd, name, t) in h]
+    for r in range(1 + rounds):
         lines = []
-        for _ in range(rnd.randint(0, 25)):
+        if r == 0:
+            lines = list(directed_lines)
+        for _ in range(rnd.randint(0, 25) if r >= 1 else 0):
             k = rnd.random()
             if k < 0.8:
                 cmd = rnd.choice(["REGISTER", "REGISTER", "MAYBE_UNLINK", "MAYBE_UNLINK", "UNREGISTER", "PROBE"])
